@@ -1,1 +1,119 @@
 """Further observation functions (registered into project.OBS)."""
+import numpy as np
+
+from harness import project as P
+from harness.project import Q, NANV
+
+
+def region_assemble(g, name, loc, trim=True):
+    """global array assembled from the in-memory region arrays (keeps what the file drops when trim=False is not needed)"""
+    t = g.extra["tables"]
+    NXf, NYf = t["meshnx"], t["meshny"]
+    out = np.full((NXf, NYf), np.nan)
+    for r in g.extra["regions"]:
+        key = "r%d_%s_%s" % (r["id"], name, loc)
+        if key not in g.reg:
+            return None
+        a = g.reg[key]
+        x0, x1, y0, y1 = t["rects"][r["id"]]
+        out[x0:x1, y0:y1] = a[: x1 - x0, : y1 - y0]
+    return out
+
+
+def region_faces(g, name):
+    """(lower-face value, upper-face value) per cell from the in-memory ylow arrays (ny+1 per region)"""
+    t = g.extra["tables"]
+    lo = np.full((t["meshnx"], t["meshny"]), np.nan)
+    hi = np.full((t["meshnx"], t["meshny"]), np.nan)
+    for r in g.extra["regions"]:
+        a = g.reg["r%d_%s_ylow" % (r["id"], name)]
+        x0, x1, y0, y1 = t["rects"][r["id"]]
+        lo[x0:x1, y0:y1] = a[:, :-1]
+        hi[x0:x1, y0:y1] = a[:, 1:]
+    return lo, hi
+
+
+def pair(out, clause, loc, a, b, quantum, bound, dom="all", kind="near"):
+    out.setdefault("pairs", []).append({"clause": clause, "loc": loc, "dom": dom, "kind": kind, "bound": int(bound),
+                                        "a": Q(a, quantum), "b": Q(b, quantum)})
+
+
+def relq(*arrs, rel=1e-9):
+    m = max(float(np.nanmax(np.abs(np.where(np.isfinite(a), a, 0.0)))) for a in arrs)
+    return rel * max(m, 1e-300)
+
+
+def obs_C02(g, out):
+    orth = g.extra["orthogonal"]
+    for loc in ("centre", "xlow", "ylow"):
+        f = lambda n: g.loc(n, loc)  # noqa: E731
+        R, Bp, Bt, hy, J = f("Rxy"), f("Bpxy"), f("Btxy"), f("hy"), f("J")
+        up = {k: f(k) for k in ("g11", "g22", "g33", "g12", "g13", "g23")}
+        dn = {k: f(k) for k in ("g_11", "g_22", "g_33", "g_12", "g_13", "g_23")}
+        U = np.array([[up["g11"], up["g12"], up["g13"]], [up["g12"], up["g22"], up["g23"]], [up["g13"], up["g23"], up["g33"]]])
+        D = np.array([[dn["g_11"], dn["g_12"], dn["g_13"]], [dn["g_12"], dn["g_22"], dn["g_23"]], [dn["g_13"], dn["g_23"], dn["g_33"]]])
+        prod = np.einsum("ikxy,kjxy->ijxy", U, D)
+        for i in range(3):
+            for j in range(3):
+                pair(out, "InverseOK", loc, prod[i, j], np.full(R.shape, 1.0 if i == j else 0.0), 1e-9, 100)
+        pair(out, "JacobianIsHyOverBp", loc, J, hy / Bp, relq(J), 20)
+        det = (up["g11"] * up["g22"] * up["g33"] + 2 * up["g12"] * up["g13"] * up["g23"] - up["g11"] * up["g23"] ** 2
+               - up["g22"] * up["g13"] ** 2 - up["g33"] * up["g12"] ** 2)
+        pair(out, "JacobianIsInvSqrtDet", loc, np.abs(J) * np.sqrt(det), np.ones(R.shape), 1e-9, 100)
+        pair(out, "ClosedForm_g11", loc, up["g11"], (R * Bp) ** 2, relq(up["g11"]), 20)
+        pair(out, "ClosedForm_g_33", loc, dn["g_33"], R ** 2, relq(dn["g_33"]), 20)
+        dphidy = f("dphidy")
+        pair(out, "Dphidy", loc, dphidy, hy * Bt / (Bp * R), relq(dphidy) if np.nanmax(np.abs(dphidy)) > 0 else 1e-12, 20)
+        if orth:
+            cosb = np.ones(R.shape)
+            tanb = np.zeros(R.shape)
+            for k in ("g12", "g13"):
+                pair(out, "OrthogonalZero_" + k, loc, up[k], np.zeros(R.shape), 1e-12, 0)
+            pair(out, "OrthogonalZero_g_12", loc, dn["g_12"], np.zeros(R.shape), 1e-12, 0)
+        elif loc in ("centre", "ylow"):
+            cosb = region_assemble(g, "cosBeta", loc)
+            tanb = region_assemble(g, "tanBeta", loc)
+        else:
+            cosb = tanb = None
+        if cosb is not None:
+            pair(out, "ClosedForm_g22", loc, up["g22"], 1.0 / (hy * cosb) ** 2, relq(up["g22"]), 20)
+            pair(out, "ClosedForm_g33", loc, up["g33"], 1.0 / R ** 2 + (dphidy / (hy * cosb)) ** 2, relq(up["g33"]), 20)
+            pair(out, "ClosedForm_g_11", loc, dn["g_11"], 1.0 / (R * Bp * cosb) ** 2, relq(dn["g_11"]), 20)
+            pair(out, "ClosedForm_g_22", loc, dn["g_22"], hy ** 2 + (dphidy * R) ** 2, relq(dn["g_22"]), 20)
+            pair(out, "ClosedForm_g12", loc, up["g12"], R * np.abs(Bp) * tanb / hy, relq(up["g11"], up["g22"]), 20)
+            pair(out, "ClosedForm_g_12", loc, dn["g_12"], -hy * tanb / (R * np.abs(Bp)), relq(dn["g_11"], dn["g_22"]), 20)
+    # y-z coupling against the toroidal shift stored in the same grid (centre): g_23 = g_33 * d(zShift)/dy
+    dy = g.var("dy")
+    zlo, zhi = region_faces(g, "zShift")
+    dz = (zhi - zlo) / dy
+    a = g.var("g_23") / g.var("g_33")
+    if np.nanmax(np.abs(g.var("Btxy"))) > 0:
+        pair(out, "G23MatchesZShift", "centre", a, dz, relq(a, dz, rel=1e-6), 0, kind="signratio")
+        pair(out, "G23upMatchesZShift", "centre", -g.var("g23") / g.var("g22"), dz, relq(a, dz, rel=1e-6), 0, kind="signratio")
+    # covariant components reproduce the scalar products of the actual displacements (centre)
+    Rx = [region_assemble(g, "Rxy", "xlow")]
+    t = g.extra["tables"]
+    dRx = np.full((t["meshnx"], t["meshny"]), np.nan)
+    dZx = np.full_like(dRx, np.nan)
+    dRy = np.full_like(dRx, np.nan)
+    dZy = np.full_like(dRx, np.nan)
+    for r in g.extra["regions"]:
+        x0, x1, y0, y1 = t["rects"][r["id"]]
+        Rxl, Zxl = g.reg["r%d_Rxy_xlow" % r["id"]], g.reg["r%d_Zxy_xlow" % r["id"]]
+        Ryl, Zyl = g.reg["r%d_Rxy_ylow" % r["id"]], g.reg["r%d_Zxy_ylow" % r["id"]]
+        dRx[x0:x1, y0:y1] = Rxl[1:, :] - Rxl[:-1, :]
+        dZx[x0:x1, y0:y1] = Zxl[1:, :] - Zxl[:-1, :]
+        dRy[x0:x1, y0:y1] = Ryl[:, 1:] - Ryl[:, :-1]
+        dZy[x0:x1, y0:y1] = Zyl[:, 1:] - Zyl[:, :-1]
+    dx = g.var("dx")
+    g_11, g_12, g_22 = g.var("g_11"), g.var("g_12"), g.var("g_22")
+    pol22 = g_22 - (g.var("Rxy") * g.var("dphidy")) ** 2
+    pair(out, "Displacement_g_11", "centre", g_11, (dRx ** 2 + dZx ** 2) / dx ** 2, relq(g_11, rel=1e-6), 0, kind="signratio", dom="awayX")
+    pair(out, "Displacement_g_22pol", "centre", pol22, (dRy ** 2 + dZy ** 2) / dy ** 2, relq(pol22, rel=1e-6), 0, kind="signratio")
+    if not orth:
+        d12 = (dRx * dRy + dZx * dZy) / (dx * dy)
+        pair(out, "Displacement_g_12", "centre", g_12, d12, relq(g_12, d12, rel=1e-6), 0, kind="signratio12", dom="awayX")
+        out["g12scale"] = Q(np.sqrt(np.abs(g_11 * pol22)), relq(g_12, d12, rel=1e-6))
+
+
+P.OBS["C02"] = obs_C02
